@@ -66,7 +66,11 @@ func analyse(p *optrun.Program, kind string, o optrun.Opts) *optrun.Result {
 }
 
 // repeat runs the analysis r times in this process; returns canon text per distinct hash and counts.
-func repeat(p *optrun.Program, kind string, r int) (map[string]string, map[string]int, string) {
+func repeat(p *optrun.Program, kind string, r int, opts ...optrun.Opts) (map[string]string, map[string]int, string) {
+	o := optrun.Opts{}
+	if len(opts) > 0 {
+		o = opts[0]
+	}
 	canon := map[string]string{}
 	count := map[string]int{}
 	procs := []int{0, 1, 2, 4, 16, 3}
@@ -78,7 +82,7 @@ func repeat(p *optrun.Program, kind string, r int) (map[string]string, map[strin
 		} else {
 			runtime.GOMAXPROCS(old)
 		}
-		res := analyse(p, kind, optrun.Opts{})
+		res := analyse(p, kind, o)
 		if res.CfgErr != nil {
 			return nil, nil, "config: " + res.CfgErr.Error()
 		}
@@ -438,6 +442,35 @@ func main() {
 			}
 		}
 		check(j, r, crossTestdata || strings.HasPrefix(j.spec, "dir:"))
+	}
+	// regression corpus: entry-point contexts re-converging on a shared call site (>= 30 runs)
+	check(job{"taint", "dir:" + filepath.Join(lib.Root(), "corpus", "c06_ctx_reconverge"), "corpus-ctx-reconverge"}, 3*R+10, false)
+	// the depth cut-off must not depend on the traversal order: the generated programs again with unsafe-max-depth set
+	for _, j := range jobs {
+		if j.kind != "taint" || !strings.HasPrefix(j.spec, "dir:") {
+			continue
+		}
+		if p, err := loadSpec(j.spec); err == nil {
+			for _, depth := range []string{"5", "9", "14"} {
+				canon, _, e := repeat(p, "taint", R, optrun.Opts{"unsafe-max-depth": depth})
+				if e != "" {
+					rep.Notes = append(rep.Notes, j.name+" unsafe-max-depth="+depth+": "+e)
+					continue
+				}
+				rep.Case("taint/" + j.name + "/unsafe-max-depth=" + depth)
+				rep.Count("analysis/taint+max-depth")
+				if len(canon) > 1 {
+					var hs []string
+					for h := range canon {
+						hs = append(hs, h)
+					}
+					sort.Strings(hs)
+					rep.Fail("nondet-taint/"+j.name+"/unsafe-max-depth="+depth,
+						fmt.Sprintf("taint of %s with unsafe-max-depth=%s gives %d different results on identical inputs: %s", j.name, depth, len(canon), strings.SplitN(diffCanon(canon[hs[0]], canon[hs[1]]), "\n", 2)[0]),
+						[]byte(fmt.Sprintf("program: %s\noption: unsafe-max-depth: %s\n--- difference ---\n%s\n--- A ---\n%s\n--- B ---\n%s\n", j.spec, depth, diffCanon(canon[hs[0]], canon[hs[1]]), canon[hs[0]], canon[hs[1]])), false)
+				}
+			}
+		}
 	}
 	// the F14 tie family (small programs: many repetitions are cheap)
 	tieR := R
